@@ -121,3 +121,61 @@ def build_dag(dd, plains, decisions):
         return n
 
     return [build(t, True) for t in plains], kinds
+
+
+# ----------------------------------------------------------------- damage
+
+@st.composite
+def damaged(draw, trees_strategy, max_ops=4):
+    """Turn a (well-formed) list of trees into the shapes delta debugging
+    reaches: delete / duplicate / swap children, replace a subtree by () or a
+    leaf, drop trailing arguments, unwrap a node into its parent."""
+    import copy
+    trees = copy.deepcopy(draw(trees_strategy))
+    nops = draw(st.integers(1, max_ops))
+    ops = []
+    for _ in range(nops):
+        paths = [(i, ) + p for i, t in enumerate(trees) for p, s in _paths(t)]
+        if not paths:
+            break
+        p = draw(st.sampled_from(paths))
+        op = draw(st.sampled_from(['delete', 'dup', 'swap', 'empty', 'leaf', 'truncate', 'unwrap',
+                                   'wrap', 'delete', 'truncate']))
+        ops.append(op)
+        parent = trees if len(p) == 1 else _get(trees, p[:-1])
+        i = p[-1]
+        node = parent[i]
+        if op == 'delete':
+            del parent[i]
+        elif op == 'dup':
+            parent.insert(i, copy.deepcopy(node))
+        elif op == 'swap' and len(parent) >= 2:
+            j = draw(st.integers(0, len(parent) - 1))
+            parent[i], parent[j] = parent[j], parent[i]
+        elif op == 'empty':
+            parent[i] = []
+        elif op == 'leaf':
+            parent[i] = draw(st.sampled_from(['x', '0', '_', 'let', '#b', '""', 'bv', '1.', 'Int']))
+        elif op == 'truncate' and isinstance(node, list) and node:
+            k = draw(st.integers(0, len(node) - 1))
+            del node[k:]
+        elif op == 'unwrap' and isinstance(node, list):
+            parent[i:i + 1] = node
+        elif op == 'wrap':
+            parent[i] = [node]
+    return trees, ops
+
+
+def _paths(t, prefix=()):
+    out = [(prefix, t)]
+    if not isinstance(t, str):
+        for i, c in enumerate(t):
+            out.extend(_paths(c, prefix + (i, )))
+    return out
+
+
+def _get(trees, path):
+    t = trees
+    for i in path:
+        t = t[i]
+    return t
